@@ -31,13 +31,22 @@ theorem C08_pushBack_in_place (m : M) (id : Nat) (v : Val) (hc : wouldCycle m id
 theorem C08_reverse_in_place (m : M) (id : Nat) :
     uop_reverse (.ref id) m = some (m.setArr id (m.arr id).reverse, [], .nil) := rfl
 
-theorem C08_resize_shrinks_or_pads (m : M) (id : Nat) (d : Dec) :
+theorem C08_resize_shrinks_or_pads (m : M) (id : Nat) (d : Dec) (h0 : ¬ truncInt d < 0) (hmax : ¬ (truncInt d).toNat > maxArraySize) :
     ∃ xs, bop_resize (.ref id) (.num d) m = some (m.setArr id xs, [], .nil) ∧ xs.length = (truncInt d).toNat := by
   unfold bop_resize
-  simp only [pure']
+  simp only [pure', h0, hmax, if_false]
   split
   · next h => exact ⟨_, rfl, by simp [List.length_take, Nat.min_eq_left h]⟩
   · next h => exact ⟨_, rfl, by simp; omega⟩
+
+/-- a negative size (NaN counts as one) and a size beyond the limit are refused: a diagnostic, the array stays -/
+theorem C08_resize_refused (m : M) (id : Nat) (d : Dec) :
+    (truncInt d < 0 → bop_resize (.ref id) (.num d) m = some (m.log Diag.runtime_NegativeSize, [], .nil)) ∧
+    (¬ truncInt d < 0 → (truncInt d).toNat > maxArraySize → bop_resize (.ref id) (.num d) m = some (m.log Diag.runtime_IndexOutOfRange, [], .nil)) ∧
+    bop_resize (.ref id) .nan m = some (m.log Diag.runtime_NegativeSize, [], .nil) := by
+  refine ⟨?_, ?_, rfl⟩
+  · intro h; unfold bop_resize; simp [h, pure']
+  · intro h1 h2; unfold bop_resize; simp [h1, h2, pure']
 
 /-! ## 2. Copying operators return fresh arrays -/
 
@@ -69,16 +78,18 @@ theorem C08_set_negative_rejected (m : M) (id p : Nat) (d : Dec) (v : Val)
     (hp : m.arr p = [.num d, v]) (hneg : truncInt d < 0) :
     bop_set (.ref id) (.ref p) m = some (m.log Diag.runtime_NegativeIndex, [], .nil) := by
   unfold bop_set
-  simp [hp, nth, hneg, pure']
+  simp only [truncInt] at hneg
+  simp [hp, nth, hneg, pure', intOfVal]
 
 /-- `set` beyond the end grows the array with nils up to the index -/
 theorem C08_set_grows (m : M) (id p : Nat) (d : Dec) (v : Val)
-    (hp : m.arr p = [.num d, v]) (hpos : ¬ truncInt d < 0) (hc : wouldCycle m id v = false)
+    (hp : m.arr p = [.num d, v]) (hpos : ¬ truncInt d < 0) (hmax : ¬ (truncInt d).toNat ≥ maxArraySize) (hc : wouldCycle m id v = false)
     (hbig : (m.arr id).length ≤ (truncInt d).toNat) :
     bop_set (.ref id) (.ref p) m =
       some (m.setArr id ((m.arr id ++ List.replicate ((truncInt d).toNat + 1 - (m.arr id).length) Val.nil).set (truncInt d).toNat v), [], .nil) := by
   unfold bop_set
-  simp [hp, nth, hpos, hc, hbig, pure']
+  simp only [truncInt] at hpos hmax hbig ⊢
+  simp [hp, nth, hpos, hmax, hc, hbig, pure', intOfVal]
 
 /-! ## 4. No operation makes an array contain itself: the attempt is refused -/
 
@@ -275,25 +286,28 @@ theorem C08_set_acyclic (m : M) (id p : Nat) (res : OpRes) (ha : Acyclic m.heap 
   · have : res = (m.log Diag.runtime_ExpectedArraySizeMissmatch, [], .nil) := by simpa using hr.symm
     subst this; simp only [log_heap, log_maps]; exact ha
   · split at hr
-    · next d hd =>
+    · next idx hd =>
       split at hr
       · have : res = (m.log Diag.runtime_NegativeIndex, [], .nil) := by simpa using hr.symm
         subst this; simp only [log_heap, log_maps]; exact ha
       · split at hr
-        · have e : res = ((m.setArr id (if (m.arr id).length ≤ (truncInt d).toNat then m.arr id ++ List.replicate ((truncInt d).toNat + 1 - (m.arr id).length) Val.nil else m.arr id)).log Diag.runtime_ArrayRecursion, [], .nil) := by
-            simpa using hr.symm
-          subst e
-          simp only [log_heap, log_maps]
-          exact acyclic_setArr m id _ ha (grown _)
-        · next hc =>
-          have e : res = (m.setArr id ((if (m.arr id).length ≤ (truncInt d).toNat then m.arr id ++ List.replicate ((truncInt d).toNat + 1 - (m.arr id).length) Val.nil else m.arr id).set (truncInt d).toNat (nth (m.arr p) 1)), [], .nil) := by
-            simpa using hr.symm
-          subst e
-          refine acyclic_setArr m id _ ha ?_
-          intro x hx
-          rcases List.mem_or_eq_of_mem_set hx with hx | hx
-          · exact grown _ x hx
-          · subst hx; exact Or.inr (Or.inl (by simpa using hc))
+        · have : res = (m.log Diag.runtime_IndexOutOfRange, [], .nil) := by simpa using hr.symm
+          subst this; simp only [log_heap, log_maps]; exact ha
+        · split at hr
+          · have e : res = ((m.setArr id (if (m.arr id).length ≤ idx.toNat then m.arr id ++ List.replicate (idx.toNat + 1 - (m.arr id).length) Val.nil else m.arr id)).log Diag.runtime_ArrayRecursion, [], .nil) := by
+              simpa using hr.symm
+            subst e
+            simp only [log_heap, log_maps]
+            exact acyclic_setArr m id _ ha (grown _)
+          · next hc =>
+            have e : res = (m.setArr id ((if (m.arr id).length ≤ idx.toNat then m.arr id ++ List.replicate (idx.toNat + 1 - (m.arr id).length) Val.nil else m.arr id).set idx.toNat (nth (m.arr p) 1)), [], .nil) := by
+              simpa using hr.symm
+            subst e
+            refine acyclic_setArr m id _ ha ?_
+            intro x hx
+            rcases List.mem_or_eq_of_mem_set hx with hx | hx
+            · exact grown _ x hx
+            · subst hx; exact Or.inr (Or.inl (by simpa using hc))
     · have : res = (m.log Diag.runtime_ExpectedArrayTypeMissmatch, [], .nil) := by simpa using hr.symm
       subst this; simp only [log_heap, log_maps]; exact ha
 
